@@ -25,11 +25,9 @@ TRUSTED = [
 ASSUMPTIONS = [
     "ids issued by a back-end contain only characters that need no URL escaping and are not '.', '..' (mem: decimal, file: timestamp-counter)",
     "canonical mailbox names are fixed points of the naming function (C04) where a theorem says [mfa mb = Some mb]",
+    "client_convenience_effect assumes the store invariant SInv (handles unique and increasing within a mailbox; holds in every reachable store: Proofs/StoreSpecFacts.v, C07)",
 ]
-NOT_PROVED = [
-    "client_convenience_effect_stmt (Proofs/RestClient.v): MessageHeader.GetMessage/GetSource/Delete and Message.GetSource/Delete "
-    "(two round trips through an id taken from the first answer) have the effect their names say — covered by the correspondence run only",
-]
+NOT_PROVED = []
 KNOWN_MUST_REPRODUCE = True
 
 
